@@ -622,6 +622,16 @@ func TestC03(t *testing.T) {
 	// journalled cases that have not ended after a minute of real time are examined (rep.Guard)
 	r.Guard(60 * time.Second)
 	r.Rule("fault enumeration: every ordered pair (and single, and triple in thorough) of close causes {peer disconnect, transport error, heartbeat expiry, Close(false), Close(true), Server.Close, parse error} fired at one virtual instant on every transport, with the goroutines that passed the closed-state test held at the hook windows (socket.OnClose.window, socket.Close.window, server.Handshake.afterNewSocket) and released in every order; plus cause-free histories, plus an upgrade packet that lands after the state became closed while an application close listener is still running, and a close cause that completes while Send is between its state test and its flush; oracle: per-session trace automaton (forward-only state writes, exactly one close event with an attributable reason, no session event after close, connection event only for open sessions, Send after close silent) and the registry invariant; distinct = (transport, causes, window, release order, number of goroutines held)")
+	if r.Lane == 1%r.Lanes {
+		for k := 0; k < r.N(16, 400); k++ {
+			rev := 4 - k%2
+			key, msg, both := runC03ConcurrentImmediateClose(rev, r)
+			r.Case(fmt.Sprintf("concurrent-immediate-close/v%d", rev), both)
+			if key != "" {
+				r.Violation(key, msg, map[string]any{"lane": "Close(true) and Server.Close both past the transport's state test (hooks transport.Close.window, polling.DoClose.*)", "rev": rev})
+			}
+		}
+	}
 	var cases []c03Case
 	transports := []string{"polling", "websocket", "webtransport"}
 	for _, tr := range transports {
@@ -735,4 +745,69 @@ func TestC03(t *testing.T) {
 			r.Violation(key, msg, c)
 		}
 	}
+}
+
+// runC03ConcurrentImmediateClose: two immediate closes of one polling session whose poll is
+// pending - the application's Close(true) and Server.Close - both past the transport's "already
+// closing?" test (hook transport.Close.window) at the same moment.  Each then finds the transport
+// writable (polling.DoClose.writableSeen) and hands a close packet to a writer goroutine; the
+// closers are held before they report the close (polling.DoClose.beforeOnClose) while the writer
+// goroutines run.  The session must close exactly once, with the reason of one of its causes.
+func runC03ConcurrentImmediateClose(rev int, r *rep.Report) (key, msg string, both bool) {
+	rig.Bubble(r.T(), func() {
+		so := &config.ServerOptions{}
+		so.SetAllowEIO3(true)
+		so.SetPingInterval(20 * time.Second)
+		w := rig.NewWorld(rig.Options{Server: so})
+		defer w.Finish()
+		cl, err := w.Connect(rig.ClientCfg{Rev: rev, Transport: "polling"})
+		rig.Wait()
+		sock := w.Socket(0)
+		if err != nil || sock == nil {
+			key, msg = "c03-handshake-failed", fmt.Sprint(err)
+			return
+		}
+		sid := sock.Id()
+		cl.StartReader()
+		time.Sleep(time.Millisecond)
+		rig.Wait()
+		w.Gate.Arm("transport.Close.window", 2)
+		w.Gate.Arm("polling.DoClose.writableSeen", 2)
+		w.Gate.Arm("polling.DoClose.beforeOnClose", 2)
+		go sock.Close(true)
+		go w.Eng.Close()
+		step := func(point string) int {
+			rig.Settle()
+			n := 0
+			for _, p := range w.Gate.Parked() {
+				if p.Point == point {
+					n++
+					p.Release()
+				}
+			}
+			return n
+		}
+		inWindow := step("transport.Close.window")
+		sawWritable := step("polling.DoClose.writableSeen")
+		rig.Settle()
+		// the closers wait before reporting; the writer goroutines run meanwhile
+		rig.Settle()
+		held := step("polling.DoClose.beforeOnClose")
+		w.Gate.ReleaseAll()
+		both = inWindow == 2
+		r.Obs(fmt.Sprintf("gate:closers_past_the_transport_state_test=%d", inWindow), 1)
+		r.Obs(fmt.Sprintf("gate:closers_that_found_the_transport_writable=%d", sawWritable), 1)
+		_ = held
+		time.Sleep(50 * time.Millisecond)
+		rig.Wait()
+		if k, m := judgeLifecycle(w, sid, []string{"close-true", "server-close"}, true); k != "" {
+			key, msg = k, fmt.Sprintf("application Close(true) and Server.Close at the same moment on a polling session (v%d) whose poll is pending, %d closers past the transport's state test, %d found it writable: %s", rev, inWindow, sawWritable, m)
+			return
+		}
+		if k, m := checkRegistry(w); k != "" {
+			key, msg = k, m
+		}
+		cl.Stop()
+	})
+	return
 }
